@@ -26,7 +26,8 @@ Record config := mkconfig {
   cfg_host : string;        (* access.Config.Host: audience bearers must name *)
   cfg_target : string;      (* access.Config.Target: audience written into stored tokens, and uri base *)
   cfg_audience : string;    (* crossbar.Config.Audience (relay.go sets it to Target) *)
-  cfg_ttl : Z               (* code lifetime, 30 in NewDefaultCodeStore *)
+  cfg_ttl : Z;              (* code lifetime, 30 in NewDefaultCodeStore *)
+  cfg_secret : N            (* access.Config.Secret, as ONE string (interned by the harness: only equality matters) *)
 }.
 
 (* ------------------------------------------------------------------ state *)
@@ -276,7 +277,7 @@ Section Guarded.
     | RBadMethod => (s, Resp 405 BError)
     | ROpaque => (s, Resp 400 BError)
     | rt =>
-        match validate_header (clock s) (cfg_host cfg) (r_cred r) with
+        match validate_header (clock s) (cfg_host cfg) (cfg_secret cfg) (r_cred r) with
         | AuthNone => (s, Resp 401 BError)
         | AuthError => (s, Resp 500 BError)
         | Principal c =>
@@ -421,7 +422,10 @@ Inductive op :=
 | OLeave (conn : N)        (* the connection ends: client closes, token expires, write error *)
 | OSetNow (t : Z)          (* the clock shows t (any value: no monotonicity assumed) *)
 | OSweep                   (* CodeStore.CleanExpired *)
-| OPrune.                  (* deny.Store.Prune *)
+| OPrune                   (* deny.Store.Prune *)
+| OTimers.                 (* every expiry timer that is due has fired: serveWs arms, at admission, a timer of
+                              exp - now whole seconds from the connect instant, so the relay itself ends a
+                              connection no later than one second after its token's exp *)
 
 Inductive out :=
 | OutResp (r : response)
@@ -439,6 +443,7 @@ Definition step_gen (guard : bool) (cfg : config) (s : st) (o : op) : st * out :
   | OSetNow t => (set_reg s (mkst (allowl (reg s)) (denyl (reg s)) t), OutUnit)
   | OSweep => (sweep s, OutUnit)
   | OPrune => (set_reg s (do_prune (reg s)), OutUnit)
+  | OTimers => (set_hub s (filter (fun m => negb (m_exp m + 1 <? clock s)%Z) (hub s)), OutUnit)
   end.
 
 (* the tree with F07 repaired *)
